@@ -80,7 +80,21 @@ type Options struct {
 }
 
 // Rig is one fresh server with gated sessions, an ungated oracle session and the harness connector.
+// Pool is one real server shared by the behaviours a worker process replays one after the other; every behaviour
+// gets fresh mailboxes (model name + suffix), fresh sessions and literals of its own.
+type Pool struct {
+	opt   Options
+	srv   *fixture.Server
+	gate  *Gate
+	conn  *fixture.VConn
+	admin *wire.Client
+	pan   *panicRec
+	n     int
+}
+
 type Rig struct {
+	pool   *Pool
+	suffix string
 	opt    Options
 	srv    *fixture.Server
 	gate   *Gate
@@ -100,7 +114,16 @@ func Literal(m string) []byte {
 	return []byte("From: v@verif.test\r\nDate: Mon, 7 Feb 1994 21:52:25 -0800\r\nSubject: " + m + "\r\n\r\nbody of " + m + "\r\n")
 }
 
-func NewRig(g *Gate, opt Options) (*Rig, error) {
+// lit is the literal of model message m in this behaviour (distinct from every other behaviour's literals).
+func (r *Rig) lit(m string) []byte {
+	return []byte("From: v@verif.test\r\nDate: Mon, 7 Feb 1994 21:52:25 -0800\r\nX-Verif-Behaviour: " + r.suffix + "\r\nSubject: " + m + "\r\n\r\nbody of " + m + " " + r.suffix + "\r\n")
+}
+
+// real is the name of model mailbox b on the server.
+func (r *Rig) real(b string) string { return b + r.suffix }
+
+// NewPool starts the shared server of a worker.
+func NewPool(g *Gate, opt Options) (*Pool, error) {
 	pr := &panicRec{}
 	conn := fixture.NewVConn(map[string]string{"user": "pass"})
 	if opt.MaxMsgs > 0 || opt.MaxUID > 0 {
@@ -120,38 +143,70 @@ func NewRig(g *Gate, opt Options) (*Rig, error) {
 	if err != nil {
 		return nil, err
 	}
-	r := &Rig{opt: opt, srv: srv, gate: g, conn: conn, sess: map[string]*rsess{}, remote: map[string]imap.MessageID{},
-		boxID: map[string]imap.MailboxID{}, pan: pr, rep: &Report{}, uidSeen: map[string]map[int]string{}, uidNextSeen: map[string]int{}}
+	p := &Pool{opt: opt, srv: srv, gate: g, conn: conn, pan: pr}
 	g.mu.Lock()
 	g.GateNext = false
 	g.mu.Unlock()
-	r.oracle, err = wire.Dial(srv.Addr)
+	p.admin, err = wire.Dial(srv.Addr)
 	if err != nil {
-		r.Close()
+		p.Close()
 		return nil, err
 	}
-	if res := r.oracle.Login("user", "pass"); res.Status != "OK" {
-		r.Close()
-		return nil, fmt.Errorf("oracle login: %+v", res)
+	if res := p.admin.Login("user", "pass"); res.Status != "OK" {
+		p.Close()
+		return nil, fmt.Errorf("admin login: %+v", res)
 	}
+	return p, nil
+}
+
+func (p *Pool) Close() {
+	if p.admin != nil {
+		p.admin.Close()
+	}
+	_ = p.srv.Close(15 * time.Second)
+	p.srv.RemoveDir()
+}
+
+// Healthy tells whether the shared server can be used for another behaviour (no panic recorded, admin session alive).
+func (p *Pool) Healthy() bool {
+	p.pan.mu.Lock()
+	n := len(p.pan.got)
+	p.pan.mu.Unlock()
+	if n > 0 {
+		return false
+	}
+	return p.admin.Cmd("NOOP").Status == "OK"
+}
+
+// NewRig prepares one behaviour: fresh mailboxes and fresh gated sessions.
+func (p *Pool) NewRig() (*Rig, error) {
+	p.n++
+	opt := p.opt
+	r := &Rig{pool: p, suffix: fmt.Sprintf("x%d", p.n), opt: opt, srv: p.srv, gate: p.gate, conn: p.conn, sess: map[string]*rsess{}, remote: map[string]imap.MessageID{},
+		boxID: map[string]imap.MailboxID{}, pan: p.pan, rep: &Report{}, uidSeen: map[string]map[int]string{}, uidNextSeen: map[string]int{}}
+	g := p.gate
+	g.mu.Lock()
+	g.GateNext = false
+	g.mu.Unlock()
+	r.oracle = p.admin
 	for _, b := range opt.Boxes {
-		if res := r.oracle.Cmd("CREATE " + b); res.Status != "OK" {
-			r.Close()
-			return nil, fmt.Errorf("CREATE %s: %+v", b, res)
+		if res := p.admin.Cmd("CREATE " + r.real(b)); res.Status != "OK" {
+			return nil, fmt.Errorf("CREATE %s: %+v", r.real(b), res)
 		}
 		r.uidSeen[b] = map[int]string{}
 	}
 	// remote ids of the mailboxes (the connector created them)
-	for id, name := range conn.Mailboxes {
-		if len(name) == 1 {
-			r.boxID[name[0]] = id
+	p.conn.TakeCalls()
+	for id, name := range p.conn.Mailboxes {
+		if len(name) == 1 && strings.HasSuffix(name[0], r.suffix) {
+			r.boxID[strings.TrimSuffix(name[0], r.suffix)] = id
 		}
 	}
 	for _, s := range opt.Sessions {
 		g.mu.Lock()
 		g.GateNext = true
 		g.mu.Unlock()
-		c, err := wire.Dial(srv.Addr)
+		c, err := wire.Dial(p.srv.Addr)
 		if err != nil {
 			r.Close()
 			return nil, err
@@ -169,15 +224,14 @@ func NewRig(g *Gate, opt Options) (*Rig, error) {
 	return r, nil
 }
 
+// Close ends the behaviour: sessions go away, its mailboxes are deleted.
 func (r *Rig) Close() {
 	for _, s := range r.sess {
 		s.c.Close()
 	}
-	if r.oracle != nil {
-		r.oracle.Close()
+	for _, b := range r.opt.Boxes {
+		r.pool.admin.Cmd("DELETE " + r.real(b))
 	}
-	_ = r.srv.Close(15 * time.Second)
-	r.srv.RemoveDir()
 }
 
 func (r *Rig) logf(format string, a ...interface{}) {
@@ -406,8 +460,8 @@ func (r *Rig) Exec(idx int, st *Step, prev *Step) *Drift {
 		if st.Act == "Examine" {
 			verb = "EXAMINE"
 		}
-		res = s.c.Cmd(verb + " " + b)
-		r.logf("[%s] %s %s -> %s %s", s.name, verb, b, res.Status, res.Text)
+		res = s.c.Cmd(verb + " " + r.real(b))
+		r.logf("[%s] %s %s -> %s %s", s.name, verb, r.real(b), res.Status, res.Text)
 		if res.Status == "OK" {
 			s.box = b
 			s.mirror = nil
@@ -421,7 +475,7 @@ func (r *Rig) Exec(idx int, st *Step, prev *Step) *Drift {
 		}
 	case "Append":
 		b, m := st.ArgStr(0), st.ArgStr(1)
-		res = s.c.Append(b, "", Literal(m))
+		res = s.c.Append(r.real(b), "", r.lit(m))
 		r.logf("[%s] APPEND %s %s -> %s %s", s.name, b, m, res.Status, res.Text)
 		if res.Status == "OK" {
 			// learn the remote id the connector handed out
@@ -486,7 +540,7 @@ func (r *Rig) Exec(idx int, st *Step, prev *Step) *Drift {
 	case "Copy", "Move":
 		p, d := st.ArgInts(0), st.ArgStr(1)
 		verb := strings.ToUpper(st.Act)
-		res = s.c.Cmd(verb + " " + setText(p) + " " + d)
+		res = s.c.Cmd(verb + " " + setText(p) + " " + r.real(d))
 		r.logf("[%s] %s %s %s -> %s %s", s.name, verb, setText(p), d, res.Status, res.Text)
 		if res.Status == "OK" {
 			text := res.Text
@@ -675,7 +729,7 @@ func (r *Rig) Exec(idx int, st *Step, prev *Step) *Drift {
 
 func (r *Rig) learnRemote(m string) {
 	r.conn.TakeCalls()
-	want := string(Literal(m))
+	want := string(r.lit(m))
 	for id, vm := range r.conn.Messages {
 		if string(vm.Literal) == want {
 			if _, ok := r.remote[m]; !ok {
@@ -712,9 +766,9 @@ func (r *Rig) connSetBoxes(idx int, st *Step, prev *Step) *Drift {
 	rid, known := r.remote[m]
 	var err error
 	if !known {
-		rid = imap.MessageID("cm-" + m)
+		rid = imap.MessageID("cm-" + m + "-" + r.suffix)
 		r.remote[m] = rid
-		lit := Literal(m)
+		lit := r.lit(m)
 		parsed, perr := imap.NewParsedMessage(lit)
 		if perr != nil {
 			return r.drift(idx, "harness", "literal does not parse: %v", perr)
@@ -783,7 +837,7 @@ func (r *Rig) submit(idx int, st *Step, what string, u imap.Update) *Drift {
 
 func (r *Rig) connOther(idx int, st *Step, prev *Step) *Drift {
 	parse := func(m string) (*imap.ParsedMessage, []byte) {
-		lit := Literal(m)
+		lit := r.lit(m)
 		p, _ := imap.NewParsedMessage(lit)
 		return p, lit
 	}
@@ -854,7 +908,7 @@ func (r *Rig) connOther(idx int, st *Step, prev *Step) *Drift {
 		case "DeleteUnknownMsg":
 			u = imap.NewMessagesDeleted("no-such-message")
 		case "CreateUnknownBox":
-			u = imap.NewMessagesCreated(false, &imap.MessageCreated{Message: imap.Message{ID: "bad-create-1", Flags: imap.NewFlagSet(), Date: time.Unix(760000000, 0)},
+			u = imap.NewMessagesCreated(false, &imap.MessageCreated{Message: imap.Message{ID: imap.MessageID("bad-create-1-" + r.suffix), Flags: imap.NewFlagSet(), Date: time.Unix(760000000, 0)},
 				Literal: lit, MailboxIDs: []imap.MailboxID{"no-such-mailbox"}, ParsedMessage: p})
 		case "BoxesIntoRecovery":
 			// needs an existing message: take any known one, else an unknown id (also an error)
@@ -865,11 +919,11 @@ func (r *Rig) connOther(idx int, st *Step, prev *Step) *Drift {
 			}
 			u = imap.NewMessageMailboxesUpdated(id, []imap.MailboxID{recovery}, imap.NewFlagSet())
 		case "CreateIntoRecovery":
-			u = imap.NewMessagesCreated(false, &imap.MessageCreated{Message: imap.Message{ID: "bad-create-2", Flags: imap.NewFlagSet(), Date: time.Unix(760000000, 0)},
+			u = imap.NewMessagesCreated(false, &imap.MessageCreated{Message: imap.Message{ID: imap.MessageID("bad-create-2-" + r.suffix), Flags: imap.NewFlagSet(), Date: time.Unix(760000000, 0)},
 				Literal: lit, MailboxIDs: []imap.MailboxID{recovery}, ParsedMessage: p})
 		case "MailboxCreatedDup":
 			b := r.opt.Boxes[0]
-			u = imap.NewMailboxCreated(imap.Mailbox{ID: r.boxID[b], Name: []string{b}, Flags: r.conn.Flags, PermanentFlags: r.conn.PermFlags, Attributes: r.conn.Attrs})
+			u = imap.NewMailboxCreated(imap.Mailbox{ID: r.boxID[b], Name: []string{r.real(b)}, Flags: r.conn.Flags, PermanentFlags: r.conn.PermFlags, Attributes: r.conn.Attrs})
 		case "MailboxDeletedRecovery":
 			u = imap.NewMailboxDeleted(recovery)
 		case "MailboxDeletedUnknown":
@@ -904,7 +958,7 @@ func (r *Rig) internalID(m string, prev *Step) (imap.InternalMessageID, error) {
 			}
 			defer oc.Close()
 			oc.Login("user", "pass")
-			oc.Cmd("EXAMINE " + b)
+			oc.Cmd("EXAMINE " + r.real(b))
 			res := oc.Cmd(fmt.Sprintf("UID FETCH %d (BODY.PEEK[HEADER])", e.UID))
 			oc.Cmd("LOGOUT")
 			for _, l := range res.Untagged {
@@ -980,7 +1034,7 @@ func (r *Rig) OracleView(box string) ([]Entry, int, error) {
 }
 
 func (r *Rig) oracleViewOn(oc *wire.Client, box string) ([]Entry, int, error) {
-	res := oc.Cmd("EXAMINE " + box)
+	res := oc.Cmd("EXAMINE " + r.real(box))
 	if res.Status != "OK" {
 		return nil, 0, fmt.Errorf("oracle EXAMINE %s: %s %s", box, res.Status, res.Text)
 	}
